@@ -165,3 +165,7 @@ func runDebugRule(name string) int {
 	fmt.Println("obligations", len(r.Obs), "not ok", bad)
 	return 0
 }
+
+func init() {
+	debugRules["copy"] = func(c *Ctx, r *Report) { ruleDeepCopy(c, r, "") }
+}
